@@ -25,7 +25,7 @@ from basictdf.tdfTypes import CameraViewPort
 
 KINDS = ["EMG", "FPCal", "FPData", "Data3D", "Force", "Events", "Optical"]
 # "EMG@c": the EMG class driven by the model MC_obj_EMGc.cfg (one label, three items: deeper channel histories)
-KINDS_OF = {"C15": ["EMG", "EMG@c", "FPCal", "FPData"], "C16": ["Data3D", "Force", "EMG"], "C18": ["Data3D", "Force", "EMG", "Events"],
+KINDS_OF = {"C02": ["EMG", "FPData", "Data3D", "Events"], "C15": ["EMG", "EMG@c", "FPCal", "FPData"], "C16": ["Data3D", "Force", "EMG"], "C18": ["Data3D", "Force", "EMG", "Events"],
             "C20": KINDS}
 CHAN_KINDS = {"EMG", "FPCal", "FPData"}
 NI = 2          # instances the model drives
@@ -162,25 +162,27 @@ class Harness:
         for i in range(1, SLOTS + 1):
             b = self.inst[i]
             if b is None:
-                out.append(dict(ex=False, items=[], chans=[], aux=0))
+                out.append(dict(ex=False, items=[], chans=[], aux=0, szok=True))
                 continue
             try:
                 items = self.items_of(b)
                 out.append(dict(ex=True, items=[dict(id=self.ident(x), label=self.label_id(x)) for x in items],
-                                chans=self.chans_of(b), aux=self.aux_of(b)))
+                                chans=self.chans_of(b), aux=self.aux_of(b), szok=self.size_ok(b)))
             except Exception as x:  # noqa: BLE001
-                out.append(dict(ex=True, items=[dict(id=-1, label=-1)], chans=[-98, -97], aux=-1))
+                out.append(dict(ex=True, items=[dict(id=-1, label=-1)], chans=[-98, -97], aux=-1, szok=True))
         return out
+
+    def size_ok(self, b):
+        """declared size == size of the encoding (blocks without frames cannot be encoded)"""
+        if self.nf == 0 and self.kind in ("EMG", "Data3D", "Force", "FPData") and len(self.items_of(b)):
+            return True
+        try:
+            return b.nBytes == len(self.encode_bytes(b))
+        except Exception:  # noqa: BLE001
+            return False
 
     def aux_of(self, b):
         """number of marker links a 3D block encodes (format byTrack: i32 at offset 80)"""
-        if self.kind in CHAN_KINDS:
-            if self.nf == 0 and self.kind != "FPCal":
-                return 0
-            try:
-                return 0 if b.nBytes == len(self.encode_bytes(b)) else -1
-            except Exception:  # noqa: BLE001
-                return -1
         if self.kind != "Data3D":
             return 0
         if self.nf == 0 and len(b):
@@ -400,9 +402,9 @@ def graph(kind):
             raise common.Machinery(f"object model {kind} violates {res.violation}\n{res.out[-2000:]}")
         init, adj = tours.parse_dot(dot)
         os.unlink(dot)
-        with open(cache + ".tmp", "wb") as fh:
+        with open(cache + f".{os.getpid()}.tmp", "wb") as fh:
             pickle.dump(dict(init=init, adj=dict(adj), mc=res.summary()), fh)
-        os.replace(cache + ".tmp", cache)
+        os.replace(cache + f".{os.getpid()}.tmp", cache)
     with open(cache, "rb") as fh:
         g = pickle.load(fh)
     return g["init"], g["adj"], g["mc"]
@@ -470,7 +472,7 @@ def check(prop, tier, seed, replay=None):
         trs = [tr]
     else:
         trs = []
-        budget = {"C15": 1500, "C18": 8000}.get(prop, 2500) if tier == "quick" else None
+        budget = {"C15": 1500, "C18": 8000, "C02": 1200}.get(prop, 2500) if tier == "quick" else None
         rng = random.Random(seed + 5)
         graphs = {}
         for kind in KINDS_OF[prop]:
